@@ -17,7 +17,9 @@ def load_known():
 
 
 def open_findings():
-    return {k['id']: k for k in load_known()['findings'] if k['status'] == 'open'}
+    # CIWMON_IGNORE_FINDINGS (development only): judge a candidate repair of an open finding as if the finding were fixed
+    off = set(os.environ.get('CIWMON_IGNORE_FINDINGS', '').split(','))
+    return {k['id']: k for k in load_known()['findings'] if k['status'] == 'open' and k['id'] not in off}
 
 
 def scan(spec, tr):
